@@ -20,7 +20,7 @@ def nontrivial(o):
 def run(ctx):
     q = ctx.quick
     mc = [("MC_Conn", "MC_Conn.cfg", dict(workers=8)),
-          ("MC_Conn", "MC_Conn_carry.cfg", dict(workers=8)),
+          ("MC_Conn", "MC_Conn_nocarry.cfg", dict(workers=2, expect_violation=True)),
           ("MC_Conn", "MC_Conn_noheadloop.cfg", dict(workers=2, expect_violation=True))]
     gen = [("ConnGen", "Gen_Conn_c06.cfg" if q else "Gen_Conn_c06_deep.cfg", dict(workers=6, timeout=1800))]
     obs, _ = standard_pipeline(ctx, sub="conn", mc=mc, gen=gen, trace=TRACE, random_n=300 if q else 6000, nontrivial=nontrivial,
